@@ -28,7 +28,9 @@ else
   ./check $P $T --no-evidence > /tmp/tryseed_$$.log 2>&1; rc=$?
   git -C /repo checkout -- .
 fi
-grep -E "^VIOLATION|HARNESS-ERROR|INCONCLUSIVE" /tmp/tryseed_$$.log | head -5
+grep -E "HARNESS-ERROR|INCONCLUSIVE" /tmp/tryseed_$$.log | head -3
+grep -B1 "^VIOLATION" /tmp/tryseed_$$.log | grep "^  " | cut -c1-260 | head -3
+grep -E "^violations by failing clause" /tmp/tryseed_$$.log
 head -1 /tmp/tryseed_$$.log | cut -c1-200
 [ $rc -eq 1 ] && echo "DETECTED $P $D" || echo "MISSED $P $D (rc=$rc)"
 rm -f /tmp/tryseed_$$.log /verif/evidence/replays/$P-$T-*.json
